@@ -133,7 +133,11 @@ def env(b):
   tr = b.raw_new(Trace, log=b.list([]))
   listener = b.raw_new(ListenerStub, trace=tr, accepted=b.raw_new(SockStub))
   outcomes = [b.choice("con%s.read" % n, OUTCOMES) for n in "AB"]
-  cons = [b.raw_new(ConStub, trace=tr, name=n, outcome=outcomes[i], idle_time=None, dpid=None) for i, n in enumerate("AB")]
+  # `disconnected`: a send on this connection may already have failed (Connection.send marks it and leaves the close - which
+  # announces the loss - to this loop): what the loop does with a readable connection must not depend on it (sixth round,
+  # 2026-09-25: a seeded change dropped such connections from the select set WITHOUT closing them)
+  cons = [b.raw_new(ConStub, trace=tr, name=n, outcome=outcomes[i], idle_time=None, dpid=None,
+                    disconnected=b.bool("con%s.already_marked_disconnected" % n)) for i, n in enumerate("AB")]
   task = b.raw_new(OpenFlow_01_Task, port=6633, address="0.0.0.0", started=True, ssl_key=None, ssl_cert=None, ssl_ca_cert=None,
                    id=1, priority=1)
   now = b.real("now", 0, 1000000)
@@ -225,3 +229,7 @@ def sockets_reported_in_error_are_closed_and_dropped(b):
       lambda res: which != "listener" or res[1] is True,
   })
 sockets_reported_in_error_are_closed_and_dropped.bound = "two connections; one socket reported in error"
+
+
+unit("C20", target=OF01 + "OpenFlow_01_Task.run", name="a_connection_marked_dead_by_a_failed_send_is_still_read_and_closed_by_the_loop")(
+  a_failing_connection_is_closed_alone_and_the_loop_goes_on)
